@@ -20,7 +20,8 @@ def main():
     bad = 0
     scratch = tempfile.mkdtemp(prefix='kv_selftest_')
     try:
-        subprocess.run(['rsync', '-a', '--exclude', 'target', '--exclude', '.git', '/repo/', scratch + '/'], check=True)
+        # the committed tree (never /repo's working tree, which another harness may have patched)
+        subprocess.run('git -C /repo archive HEAD | tar -x -C %s' % scratch, shell=True, check=True)
         for fn in sorted(os.listdir(d)):
             if not fn.endswith('.json') or fn == 'harmless.json':   # harmless.json belongs to tools/harmless.py
                 continue
